@@ -470,6 +470,35 @@ func (g *Global) sourceText(fn *ssa.Function, v ssa.Value, in ssa.Instruction) s
 	return txt
 }
 
+// stmtAt returns the text of the smallest assignment / inc-dec statement containing pos.
+func (g *Global) stmtAt(pos token.Pos) string {
+	if !pos.IsValid() {
+		return ""
+	}
+	p := g.fset.Position(pos)
+	f := g.files[p.Filename]
+	if f == nil {
+		return ""
+	}
+	var best ast.Node
+	ast.Inspect(f, func(n ast.Node) bool {
+		if n == nil || n.Pos() > pos || n.End() < pos {
+			return n != nil && !(n.Pos() > pos || n.End() < pos)
+		}
+		switch n.(type) {
+		case *ast.AssignStmt, *ast.IncDecStmt:
+			best = n
+		}
+		return true
+	})
+	if best == nil {
+		return ""
+	}
+	var sb strings.Builder
+	printer.Fprint(&sb, g.fset, best)
+	return strings.Join(strings.Fields(sb.String()), " ")
+}
+
 // exprAt finds the smallest expression/statement of the expected kind whose relevant token sits at pos.
 func (g *Global) exprAt(pos token.Pos, in ssa.Instruction) string {
 	p := g.fset.Position(pos)
